@@ -100,9 +100,39 @@ func runC08(p *Program, e *Engine, r *Result, tier string) {
 	a.R.ob("C08.1", "translator:name", "the translator puts exactly the name it is given into Event.Name", a.P.pos(tr.fn.Pos()), nameOK && len(nameStores) == 1, "stores to Name: "+fmtList(nameStores))
 
 	// (2) stores to the path field
-	_, pathF := tf.watchFields()
 	roots := []*ssa.Function{ro.API["AddWith"], ro.API["Remove"]}
 	roots = append(roots, ro.Readers...)
+	c08PathStores(a, tf, roots)
+	// forbidden callees unreachable from Add and from the handler
+	var reach []string
+	for _, root := range []*ssa.Function{ro.API["AddWith"], df.Reader} {
+		for _, v := range a.walk(root).Visits {
+			if call, ok := v.Instr.(*ssa.Call); ok {
+				if cal := v.Ctx.calleeOf(&call.Call); cal != nil && resolvingFns[fullName(cal)] {
+					reach = append(reach, fullName(cal)+" at "+a.P.instrPos(call)+" via "+v.Ctx.chain())
+				}
+			}
+		}
+	}
+	a.R.ob("C08.2", "no-resolving-calls", "nothing on the Add path or in the event handler resolves symlinks, absolutises or stats a name", "-", len(reach) == 0, fmtList(uniq(reach)))
+
+	// (3) entry name bytes
+	c08EntryName(a, df, hv, hctx)
+
+	// (4) first name wins
+	c04Alias(a, tf, ro.API["AddWith"])
+	for i := range a.R.Obligations {
+		if a.R.Obligations[i].Rule == "C04.4" {
+			a.R.Obligations[i].Rule = "C08.4"
+			a.R.Obligations[i].Key = "C08.4|" + strings.TrimPrefix(a.R.Obligations[i].Key, "C04.4|")
+		}
+	}
+}
+
+// c08PathStores: every store to a watch's path field is built from the caller's spelling only.
+func c08PathStores(a *An, tf *tableFacts, roots []*ssa.Function) {
+	ro := a.Ro
+	_, pathF := tf.watchFields()
 	seen := map[string]bool{}
 	for _, root := range roots {
 		w := a.walk(root)
@@ -163,30 +193,6 @@ func runC08(p *Program, e *Engine, r *Result, tier string) {
 				wit = "the Add argument reaches the path field without filepath.Clean || " + wit
 			}
 			a.R.ob("C08.2", key, "a watch's path is the caller's spelling (cleaned), never a resolved or absolutised one", a.P.instrPos(st), ok2, wit)
-		}
-	}
-	// forbidden callees unreachable from Add and from the handler
-	var reach []string
-	for _, root := range []*ssa.Function{ro.API["AddWith"], df.Reader} {
-		for _, v := range a.walk(root).Visits {
-			if call, ok := v.Instr.(*ssa.Call); ok {
-				if cal := v.Ctx.calleeOf(&call.Call); cal != nil && resolvingFns[fullName(cal)] {
-					reach = append(reach, fullName(cal)+" at "+a.P.instrPos(call)+" via "+v.Ctx.chain())
-				}
-			}
-		}
-	}
-	a.R.ob("C08.2", "no-resolving-calls", "nothing on the Add path or in the event handler resolves symlinks, absolutises or stats a name", "-", len(reach) == 0, fmtList(uniq(reach)))
-
-	// (3) entry name bytes
-	c08EntryName(a, df, hv, hctx)
-
-	// (4) first name wins
-	c04Alias(a, tf, ro.API["AddWith"])
-	for i := range a.R.Obligations {
-		if a.R.Obligations[i].Rule == "C04.4" {
-			a.R.Obligations[i].Rule = "C08.4"
-			a.R.Obligations[i].Key = "C08.4|" + strings.TrimPrefix(a.R.Obligations[i].Key, "C04.4|")
 		}
 	}
 }
